@@ -11,5 +11,6 @@ CONSTANTS
   ReaderRestores = TRUE
   AllowDeleteFresh = TRUE
   ReaderCrash = TRUE
+  ROReaders = {}
 INVARIANTS TypeOK ReadIsOldOrNew ServeOnlyAfterDeleteFresh
 CHECK_DEADLOCK FALSE
